@@ -179,11 +179,14 @@ class P(Prop):
         bytes_ = r[2 + nt: 2 + nt + nb]
         json_ok, cbor_ok, borsh_ok, chunked_ok = r[-4:]
         if json_ok == 0:
-            return "serde_json text round trip does not return the same bits"
+            return "serde_json text round trip does not return the same bits (directly: from_str / from_reader / Value; or nested in a flattened, untagged or internally tagged wrapper)"
         if cbor_ok == 0:
-            return "serde_cbor round trip does not return the same bits"
+            return "serde_cbor round trip does not return the same bits (directly: from_slice / from_reader; or nested in a flattened, untagged or internally tagged wrapper)"
         if borsh_ok != 1:
             return "borsh round trip %s" % ("failed to serialise" if borsh_ok == 3 else "does not return the same bits")
+        if chunked_ok == 2:
+            return ("borsh: the value written twice and followed by a marker in ONE stream does not read back (both values bit for bit, then "
+                    "the marker, then end of stream) through plain and short-count readers: the reader takes more or fewer bytes than its own")
         if chunked_ok != 1:
             return "borsh: reading the serialised bytes back through a reader that returns short counts does not return the same bits"
         if case["ty"].startswith("Piecewise<"):
